@@ -357,6 +357,23 @@ def r09c(ctx):
     f = [p.retval for p in returning(paths(repo, cc.getters['features']))
          if not any(e.kind == 'loop0' for e in p.events)]
     ok = len(f) == 1 and total_of(f[0]) is not None and per_input(total_of(f[0]), 'features')
+
+    def accumulated(t: Term) -> bool:
+        """total = inputs[0].features; for p in inputs[1:]: total = total + p.features
+        (one generic iteration): the first input plus a generic element of the rest; or
+        total = 0; for p in inputs: total = total + p.features"""
+        if t[0] != 'bin' or t[1] != '+':
+            return False
+        a, b = t[2], t[3]
+        rest = ('sub', inputs, ('slice', ('const', 1), NONE, NONE))
+        first = ('attr', ('sub', inputs, ('const', 0)), 'features')
+        gen_rest = b[0] == 'attr' and b[2] == 'features' and b[1][0] == 'elem' and b[1][1] == rest
+        gen_all = b[0] == 'attr' and b[2] == 'features' and b[1][0] == 'elem' and \
+            b[1][1] == inputs
+        zero = a in (('const', 0), ('const', 0.0)) or is_call(a, 'torch.tensor', 'torch.zeros')
+        return (a == first and gen_rest) or (zero and gen_all)
+    if not ok and len(f) == 1 and accumulated(f[0]):
+        ok = True
     ctx.ob('R09c', 'ConcatFeaturesCalculator.features', bool(ok),
            'sum of the features of every input' if ok else
            f'features = {short(f[0]) if f else None}: expected the sum over self.inputs',
